@@ -200,6 +200,15 @@ func c13RunModelName(c c13gen.Case) (info c13Info, err error) {
 	if again := model.ParseName(printed); again != n {
 		return info, fmt.Errorf("model round trip: ParseName(%q) = %q; printed %q; parsed again %q", s, got, printed, c13ModelParts(again))
 	}
+	// the short print (what pull and push hand on, and what the CLI shows) leaves out a default host and namespace; read
+	// back, the defaults are filled in again and the same model is addressed
+	short := n.DisplayShortest()
+	if again := model.ParseName(short); !again.EqualFold(n) {
+		return info, fmt.Errorf("model short print: ParseName(%q) = %q; DisplayShortest() = %q; parsed again %q", s, got, short, c13ModelParts(again))
+	}
+	if strings.EqualFold(got[0], "library") || strings.EqualFold(got[1], "registry.ollama.ai") {
+		info.classes = append(info.classes, "default_word_in_another_part")
+	}
 	// a Name value assembled from the same parts must print and parse identically
 	if direct := (model.Name{Host: got[0], Namespace: got[1], Model: got[2], Tag: got[3]}); !direct.IsValid() || model.ParseName(direct.String()) != direct {
 		return info, fmt.Errorf("model.Name%q does not survive String/ParseName", got)
